@@ -29,6 +29,10 @@ type Server struct {
 	mu       sync.Mutex
 	log      []Received
 	rawIn    map[int]*[]byte
+	rawOut   map[int]*[]byte
+	sent     []Sent
+	// StartupAuth, when set, is sent instead of AuthenticationOk and the next client message (password) is read and recorded before continuing.
+	StartupAuth pgproto3.BackendMessage
 	conns    int
 	scripts  map[string]Script
 	Unsupp   []string // statements that hit ErrUnsupported (rig-inconclusive)
@@ -43,7 +47,7 @@ func NewServer(db *DB) (*Server, error) {
 	if err != nil {
 		return nil, err
 	}
-	s := &Server{DB: db, ln: ln, rawIn: map[int]*[]byte{}, scripts: map[string]Script{}}
+	s := &Server{DB: db, ln: ln, rawIn: map[int]*[]byte{}, rawOut: map[int]*[]byte{}, scripts: map[string]Script{}}
 	s.wg.Add(1)
 	go s.accept()
 	return s, nil
@@ -94,6 +98,54 @@ func (s *Server) RawIn() [][]byte {
 	return out
 }
 
+// Sent is one backend message as the database sent it.
+type Sent struct {
+	Conn int
+	Type string
+	Raw  []byte
+}
+
+// SentLog returns a copy of the sent-message log.
+func (s *Server) SentLog() []Sent {
+	s.mu.Lock()
+	defer s.mu.Unlock()
+	return append([]Sent{}, s.sent...)
+}
+
+// SentLen returns the current length of the sent-message log.
+func (s *Server) SentLen() int {
+	s.mu.Lock()
+	defer s.mu.Unlock()
+	return len(s.sent)
+}
+
+// RawOutConn returns every byte sent on the given connection (1-based).
+func (s *Server) RawOutConn(id int) []byte {
+	s.mu.Lock()
+	defer s.mu.Unlock()
+	if b := s.rawOut[id]; b != nil {
+		return append([]byte{}, (*b)...)
+	}
+	return nil
+}
+
+// RawInConn returns every byte received on the given connection (1-based).
+func (s *Server) RawInConn(id int) []byte {
+	s.mu.Lock()
+	defer s.mu.Unlock()
+	if b := s.rawIn[id]; b != nil {
+		return append([]byte{}, (*b)...)
+	}
+	return nil
+}
+
+// Conns returns the number of connections accepted so far.
+func (s *Server) Conns() int {
+	s.mu.Lock()
+	defer s.mu.Unlock()
+	return s.conns
+}
+
 // Unsupported returns statements the evaluator could not handle.
 func (s *Server) Unsupported() []string {
 	s.mu.Lock()
@@ -113,6 +165,8 @@ func (s *Server) accept() {
 		id := s.conns
 		buf := []byte{}
 		s.rawIn[id] = &buf
+		obuf := []byte{}
+		s.rawOut[id] = &obuf
 		s.mu.Unlock()
 		go s.serve(id, c)
 	}
@@ -133,6 +187,35 @@ func (t *teeReader) Read(p []byte) (int, error) {
 		t.s.mu.Unlock()
 	}
 	return n, err
+}
+
+type teeWriter struct {
+	w  io.Writer
+	s  *Server
+	id int
+}
+
+func (t *teeWriter) Write(p []byte) (int, error) {
+	t.s.mu.Lock()
+	b := t.s.rawOut[t.id]
+	*b = append(*b, p...)
+	t.s.mu.Unlock()
+	return t.w.Write(p)
+}
+
+// sender wraps pgproto3.Backend.Send to log every message.
+type sender struct {
+	be *pgproto3.Backend
+	s  *Server
+	id int
+}
+
+func (x *sender) Send(m pgproto3.BackendMessage) {
+	raw, _ := m.Encode(nil)
+	x.s.mu.Lock()
+	x.s.sent = append(x.s.sent, Sent{Conn: x.id, Type: fmt.Sprintf("%T", m)[len("*pgproto3."):], Raw: raw})
+	x.s.mu.Unlock()
+	x.be.Send(m)
 }
 
 type prepared struct {
@@ -236,9 +319,27 @@ func (s *Server) noteUnsupported(sql string, err error) {
 	}
 }
 
+// beWrap routes Send through the logging sender while keeping the rest of the Backend API.
+type beWrap struct {
+	*pgproto3.Backend
+	snd *sender
+}
+
+// Send logs and sends.
+func (b *beWrap) Send(m pgproto3.BackendMessage) { b.snd.Send(m) }
+
 func (s *Server) serve(id int, c net.Conn) {
 	defer c.Close()
-	be := pgproto3.NewBackend(&teeReader{r: c, s: s, id: id}, c)
+	defer func() {
+		// a panic inside the independent codec (pgproto3) must not take the monitor down; the connection just ends
+		if p := recover(); p != nil {
+			s.mu.Lock()
+			s.Unsupp = append(s.Unsupp, fmt.Sprintf("fakepg codec panic: %v", p))
+			s.mu.Unlock()
+		}
+	}()
+	rawBE := pgproto3.NewBackend(&teeReader{r: c, s: s, id: id}, &teeWriter{w: c, s: s, id: id})
+	be := &beWrap{Backend: rawBE, snd: &sender{be: rawBE, s: s, id: id}}
 	for {
 		sm, err := be.ReceiveStartupMessage()
 		if err != nil {
@@ -252,6 +353,23 @@ func (s *Server) serve(id int, c net.Conn) {
 			return
 		}
 		break
+	}
+	if s.StartupAuth != nil {
+		be.Send(s.StartupAuth)
+		if be.Flush() != nil {
+			return
+		}
+		switch s.StartupAuth.(type) {
+		case *pgproto3.AuthenticationCleartextPassword:
+			rawBE.SetAuthType(pgproto3.AuthTypeCleartextPassword)
+		case *pgproto3.AuthenticationMD5Password:
+			rawBE.SetAuthType(pgproto3.AuthTypeMD5Password)
+		}
+		pm, err := be.Receive()
+		if err != nil {
+			return
+		}
+		s.record(id, pm)
 	}
 	be.Send(&pgproto3.AuthenticationOk{})
 	be.Send(&pgproto3.ParameterStatus{Name: "server_version", Value: "14.0 (fakepg)"})
@@ -442,6 +560,26 @@ func (s *Server) serve(id int, c net.Conn) {
 			}
 			be.Send(&pgproto3.CloseComplete{})
 		case *pgproto3.Flush:
+			if be.Flush() != nil {
+				return
+			}
+		case *pgproto3.CopyData:
+			// recorded only
+		case *pgproto3.CopyDone:
+			be.Send(&pgproto3.CommandComplete{CommandTag: []byte("COPY 0")})
+			be.Send(&pgproto3.ReadyForQuery{TxStatus: 'I'})
+			if be.Flush() != nil {
+				return
+			}
+		case *pgproto3.CopyFail:
+			be.Send(&pgproto3.ErrorResponse{Severity: "ERROR", Code: "57014", Message: "COPY from stdin failed: " + x.Message})
+			be.Send(&pgproto3.ReadyForQuery{TxStatus: 'I'})
+			if be.Flush() != nil {
+				return
+			}
+		case *pgproto3.FunctionCall:
+			be.Send(&pgproto3.FunctionCallResponse{Result: []byte("fnresult")})
+			be.Send(&pgproto3.ReadyForQuery{TxStatus: 'I'})
 			if be.Flush() != nil {
 				return
 			}
